@@ -419,6 +419,8 @@ def _np_ref(kind, shapes, par):
             return ref
         if kind == "index":
             return arrs[0][par].shape
+        if kind == "matmul":
+            return np.matmul(arrs[0], arrs[1]).shape
     except Exception:   # noqa: BLE001
         return None
     raise AssertionError(kind)
@@ -613,6 +615,26 @@ def _sym_cases(ctx, sp):
         out.append(("einsum", ops, spec,
                     (lambda spec=spec, ops=ops: pt.einsum(spec, *[mk(f"x{k}", tuple(o)) for k, o in enumerate(ops)]).shape),
                     q))
+    # ---- matmul of MIXED RANK with symbolic batch axes (no Lean model: the inferred shape is compared with NumPy
+    #      on the grid, and the call must be accepted exactly when it is valid for ALL valuations): batch axes align
+    #      from the RIGHT; rank 4 @ 3, 3 @ 4, 5 @ 3, unit batch axes, 1-d operands; invalid variants
+    Bn, Bm, B2 = (0, 1, 0, 0), (0, 0, 1, 0), (2, 0, 0, 0)
+    K1, K2, K3 = (3, 0, 0, 0), (1, 1, 0, 0), (0, 0, 2, 0)
+    one_c = (1, 0, 0, 0)
+    mm = [  # (batch dims of a, batch dims of b, valid)
+        ([Bn, Bm], [Bm], True), ([Bm], [Bn, Bm], True), ([Bn, Bn], [Bn], True), ([Bn, Bm], [Bn], False),
+        ([B2, Bn, Bm], [Bm], True), ([Bn, Bm], [one_c], True), ([one_c, Bm], [Bn, Bm], True), ([Bn, Bm], [Bn, Bm], True),
+        ([Bn, Bm], [Bm, Bn], False), ([Bn], [], True), ([], [Bn, Bm], True), ([Bn, Bm], [B2], False), ([Bn, one_c], [Bm], True)]
+    for ba, bb, valid in mm:
+        for kc in (K1, K2, K3):
+            for bad_k in (False, True):
+                s1 = [dim(c) for c in ba] + [dim(K1), dim(kc)]
+                s2 = [dim(c) for c in bb] + [dim(kc if not bad_k else (kc[0] + 1,) + kc[1:]), dim(K3)]
+                out.append(("matmul", [s1, s2], valid and not bad_k,
+                            (lambda s1=s1, s2=s2: (mk("x", tuple(s1)) @ mk("y", tuple(s2))).shape), None))
+    for s1c, s2c, valid in [([Bn, Bm, K2], [K2], True), ([K2], [Bn, K2, Bm], True), ([Bn, K2], [Bm, K2], False)]:
+        s1, s2 = [dim(c) for c in s1c], [dim(c) for c in s2c]
+        out.append(("matmul", [s1, s2], valid, (lambda s1=s1, s2=s2: (mk("x", tuple(s1)) @ mk("y", tuple(s2))).shape), None))
     # ---- basic indexing: every (start, stop, step) spelling class on literal and symbolic axes, integer indices
     slices = [(None, None, st) for st in (1, 2, 3, -1, -2, -3)] + [(1, None, 1), (None, -1, 1), (None, 2, 2), (0, None, -1),
                                                                   (None, None, 0), (-2, 5, 1), (4, 0, -2)]
@@ -789,7 +811,7 @@ def batch_symshape(ctx):
                 ctx.broken.append(f"serialiser:symshape:{kind}:{e}")
                 continue
         recs.append((kind, ops, par, shape, err, len(queries), rq is not None))
-        queries.append(mq)
+        queries.append(mq if mq is not None else "(echo no-model)")
         if rq is not None:
             queries.append(rq)
     ans = common.driver_query_parallel(queries)
@@ -810,6 +832,16 @@ def batch_symshape(ctx):
             ctx.violation(f"symshape:{kind}:unexpected-exception", f"{kind} on {desc['operands']} ({par!r}): {err}", desc)
             continue
         agree = (m_acc == (shape is not None)) and (shape is None or model == real_n)
+        if kind == "matmul":
+            # no model: `par` says whether the product is valid for all valuations
+            if (shape is not None) != bool(par):
+                dis += 1
+                ctx.violation(f"symshape:matmul:{'rejects-valid' if par else 'accepts-invalid'}",
+                              f"matmul on operand shapes {desc['operands']} is {'rejected (' + str(err) + ')' if shape is None else 'accepted'} "
+                              f"although it is {'valid' if par else 'not valid'} for all valuations (batch axes align from "
+                              f"the right)", desc)
+                continue
+            agree = True
         if agree and shape is None and kind == "index":
             # refusal classes: the model names why the real code refuses
             want = {"refuse:zero-step": "ValueError", "refuse:explicit-bound-on-symbolic-axis": "NotImplementedError",
